@@ -146,6 +146,11 @@ func (v JV) toGo() (stick.Value, error) {
 		return stick.NewSafeValue(g, v.Types...), nil
 	case "go":
 		return fixtureByID(v.ID)
+	case "gostr":
+		if v.S == nil {
+			return vStringer{""}, nil
+		}
+		return vStringer{string(*v.S)}, nil
 	}
 	return nil, fmt.Errorf("cannot build value of kind %q", v.T)
 }
